@@ -34,16 +34,25 @@ def preload(counters: dict[str, int]) -> Any:
     mod = importlib.util.module_from_spec(spec)
     sys.modules[name] = mod
     spec.loader.exec_module(mod)
+    from vp.idcounters import Counters, CountersUnavailable
+    cnt = Counters(mod)
     for k, v in counters.items():
-        mod._ids[k] = int(v)  # pylint: disable=protected-access
+        try:
+            cnt[k] = int(v)
+        except CountersUnavailable:
+            pass
     return mod
 
 
 def bump(idgen: Any, bumps: dict[str, int]) -> None:
     for k, v in bumps.items():
-        cur = idgen._ids.get(k, 0)  # pylint: disable=protected-access
-        if int(v) > cur:
-            idgen._ids[k] = int(v)  # pylint: disable=protected-access
+        from vp.idcounters import Counters, CountersUnavailable
+        cnt = Counters(idgen)
+        if int(v) > cnt.get(k, 0):
+            try:
+                cnt[k] = int(v)
+            except CountersUnavailable:
+                pass
 
 
 GARBAGE_KINDS = ("sym", "fun", "qty", "qty1f", "qty1", "qty0f", "vec", "cs", "calc", "conv", "solve", "float_arith",
@@ -281,12 +290,17 @@ def _fmt(v: Any) -> Any:
     return interp.nstr(v, 20)
 
 
+def _snapshot(idgen: Any) -> dict[str, int]:
+    from vp.idcounters import Counters
+    return Counters(idgen).snapshot()
+
+
 def main() -> None:
     job = json.loads(sys.stdin.read())
     sys.setrecursionlimit(10000)
     idgen = preload(job.get("preload", {}))
     import symplyphysics  # noqa: F401  pylint: disable=unused-import
-    result: dict[str, Any] = {"modules": {}, "counters_after_package": dict(idgen._ids)}  # pylint: disable=protected-access
+    result: dict[str, Any] = {"modules": {}, "counters_after_package": _snapshot(idgen)}
     salt = int(job.get("salt", 7))
     recipe = job.get("recipe", [])
     if job["mode"] == "full":
@@ -310,9 +324,9 @@ def main() -> None:
                     os.close(r)
                     bump(idgen, bumps)
                     garbage(garb)
-                    before = dict(idgen._ids)  # pylint: disable=protected-access
+                    before = _snapshot(idgen)
                     obs = observe(m, salt, [])
-                    after = dict(idgen._ids)  # pylint: disable=protected-access
+                    after = _snapshot(idgen)
                     obs["minted"] = {k: after.get(k, 0) - before.get(k, 0) for k in after if after.get(k, 0) != before.get(k, 0)}
                     if recipe:
                         obs["functions"] = observe(m, salt, recipe)["functions"]
